@@ -464,9 +464,15 @@ class Environment:
         if not self.first_invocation:
             return
 
+        # Backend options given before the backend was known (command line,
+        # machine files, default_options, already merged by priority) are
+        # pending and get applied when the option is added: do not put the
+        # machine file value over them afterwards, nor over an option that a
+        # previous call (this runs once per subproject) has already set up.
+        done = set(self.coredata.optstore.pending_options) | set(self.coredata.optstore.options)
         self.coredata.init_backend_options(backend_name)
         for k, v in self.options.items():
-            if self.coredata.optstore.is_backend_option(k):
+            if self.coredata.optstore.is_backend_option(k) and k not in done:
                 self.coredata.optstore.set_option(k, v)
 
     def is_cross_build(self, when_building_for: MachineChoice = MachineChoice.HOST) -> bool:
